@@ -173,7 +173,9 @@ def invalidate_attrs(obj: Any, attr: str, invalidation_map: Dict[str, Set[str]] 
         try:
             delattr(obj, invalidatee)
         except AttributeError:
-            pass
+            # Nothing stored for this attribute (e.g. a property whose cache
+            # has not been filled), but its own dependants are stale too.
+            invalidate_attrs(obj, invalidatee, invalidation_map)
 
 
 def mutate_value(
